@@ -48,6 +48,28 @@ def ctx_consts():
     return [f"#[allow(non_upper_case_globals, dead_code)] pub const {c}: () = ();" for c in ("MIN", "MAX", "__MIN", "__MAX", "__NAME", "__ENUM", "__RANGES")]
 
 
+def ctx_siblings():
+    # other enums with the derive in the SAME module: whatever the derive emits at module level (helper structs, consts,
+    # statics) must not collide between two invocations, and an expansion must not depend on the one before it
+    d = "#[derive(::core::clone::Clone, ::core::marker::Copy, ::enum_tools::EnumTools)]"
+    return [d + " #[enum_tools(as_str, from_str, into, MAX, MIN, next, next_back, try_from, Debug, Display, FromStr, Into, IntoStr, TryFrom, iter, names, range)]"
+                " #[repr(i8)] pub enum Sib1 { A = -1, B = 0, C = 1 }",
+            d + " #[enum_tools(as_str(mode = \"table\"), from_str(mode = \"table\"), into, MAX, MIN, next, next_back, try_from, Debug, Display, FromStr(mode = \"table\"), Into, IntoStr, TryFrom,"
+                " iter(mode = \"table\"), names, range)] #[repr(u64)] pub enum Sib2 { P = 1, Q = 5, R = 6, S = 9, T = 10, U = 11, V = 20, W = 30, X = 40, Y = 50 }",
+            d + " #[enum_tools(iter(mode = \"table_inline\"), names, try_from, next, Debug)] #[repr(u16)] pub enum Sib3 { K = 7, L = 9 }"]
+
+
+def ctx_clash_trait():
+    # a user trait, implemented for the enum and in scope at its definition, whose `&self` methods are named like the derived
+    # by-value functions: method-call syntax on a `&Enum` receiver inside generated code would pick the trait's method
+    # (@E@ is replaced by the enum's name by the renderer)
+    return ["#[allow(dead_code)] pub trait Clash: ::core::marker::Sized { fn as_str(&self) -> &'static str { \"<clash>\" }"
+            " fn next(&self) -> ::core::option::Option<Self> { ::core::option::Option::None }"
+            " fn next_back(&self) -> ::core::option::Option<Self> { ::core::option::Option::None }"
+            " fn into(&self) -> u8 { 77 } fn len(&self) -> usize { 99 } fn iter(&self) -> u8 { 1 } fn names(&self) -> u8 { 2 } }",
+            "impl Clash for @E@ {}"]
+
+
 CONTEXTS = {
     "plain": [],
     "no_prelude": ["#![no_implicit_prelude]"],
@@ -56,10 +78,12 @@ CONTEXTS = {
     "mods": ctx_mods(),
     "macros": ctx_macros(),
     "values": ctx_values() + ctx_consts(),
+    "siblings": ctx_siblings(),
+    "clash_trait": ctx_clash_trait(),
     "all_types": ["#![no_implicit_prelude]"] + ctx_types() + ctx_mods() + ctx_macros() + ctx_consts(),
     "all_traits": ["#![no_implicit_prelude]"] + ctx_traits() + ctx_mods() + ctx_macros() + ctx_values() + ctx_consts(),
     # "no_std": the declaration lives in the #![no_std] library of the corpus package (see corpus_rt.write_crate)
     "no_std": [],
     "no_std_all": ["#![no_implicit_prelude]"] + ctx_types() + ctx_mods() + ctx_macros() + ctx_consts(),
 }
-ORDER = ["plain", "no_prelude", "types", "traits", "mods", "macros", "values", "all_types", "all_traits", "no_std", "no_std_all"]
+ORDER = ["plain", "no_prelude", "types", "traits", "mods", "macros", "values", "siblings", "clash_trait", "all_types", "all_traits", "no_std", "no_std_all"]
